@@ -178,7 +178,25 @@ func genGram(t *rapid.T) GramCase {
 			app := word("app_name", "app", []string{"myproc", "su", "evntslog"})
 			proc := word("process_id", "proc", []string{"10", "8710", "p1"})
 			mid := word("message_id", "mid", []string{"ID47", "m"})
-			text := fmt.Sprintf("<%d>1 %s %s %s %s %s -", pri, ts, host, app, proc, mid)
+			sd := "-"
+			if rapid.IntRange(0, 2).Draw(t, "has_sd") == 0 {
+				// STRUCTURED-DATA: one or two elements; the decoder documents {"<sd-id>": {"<param>": "<value>"}}
+				sd = ""
+				ids := rapid.Permutation([]string{"exampleSDID@32473", "origin", "meta@1", "x"}).Draw(t, "sd_ids")
+				for e, ne := 0, rapid.IntRange(1, 2).Draw(t, "sd_n"); e < ne; e++ {
+					obj := vkit.JObj()
+					el := "[" + ids[e]
+					names := rapid.Permutation([]string{"iut", "eventSource", "eventID", "k"}).Draw(t, "sd_names")
+					for p, np := 0, rapid.IntRange(1, 3).Draw(t, "sd_params"); p < np; p++ {
+						val := genWord(t, "sd_val", "\"\\]")
+						el += " " + names[p] + `="` + val + `"`
+						obj.Set(names[p], vkit.JStr(val))
+					}
+					sd += el + "]"
+					f[ids[e]] = canonJSON(obj.Encode())
+				}
+			}
+			text := fmt.Sprintf("<%d>1 %s %s %s %s %s %s", pri, ts, host, app, proc, mid, sd)
 			if rapid.Bool().Draw(t, "hasmsg") {
 				msg := genText(t, "msg", "")
 				f["message"] = msg
@@ -242,6 +260,11 @@ func runGram(c GramCase) *vkit.Outcome {
 		default:
 			err = d.DecodeToJson(root, line)
 		}
+		// the line buffer is the caller's again as soon as the decoder returns (a reader refills it): what the
+		// event carries must not depend on it any more
+		for k := range line {
+			line[k] = '#'
+		}
 		enc := ""
 		if err == nil {
 			enc = root.EncodeToString()
@@ -265,7 +288,7 @@ func runGram(c GramCase) *vkit.Outcome {
 			if got.Vals[i].Kind == 's' {
 				gotM[k] = got.Vals[i].Str
 			} else {
-				gotM[k] = got.Vals[i].Encode()
+				gotM[k] = canonJSON(got.Vals[i].Encode()) // (structured-data parameters come out of a map)
 			}
 		}
 		if diff := diffFields(ln.Fields, gotM); diff != "" {
@@ -279,6 +302,52 @@ func runGram(c GramCase) *vkit.Outcome {
 		valid++
 		if sawGarbage {
 			afterGarbage = true
+		}
+		if (typ == decoder.SYSLOG_RFC3164 || typ == decoder.SYSLOG_RFC5424) && li == 0 {
+			// metamorphic: syslog_facility_format decides how "facility" is written and nothing else,
+			// syslog_severity_format decides how "severity" is written and nothing else; "number" is the
+			// plain number (what the default gives)
+			type fs struct{ fac, sev string }
+			res := map[[2]string]fs{}
+			ok := true
+			for _, ff := range []string{"number", "string"} {
+				for _, sf := range []string{"number", "string"} {
+					d2, err2 := decoder.New(typ, decoder.Params(map[string]any{"syslog_facility_format": ff, "syslog_severity_format": sf}))
+					if err2 != nil {
+						ok = false
+						continue
+					}
+					root2 := insaneJSON.Spawn()
+					_ = root2.DecodeString("{}")
+					if err2 = d2.DecodeToJson(root2, []byte(ln.Text)); err2 != nil {
+						o.Failf(P, "well-formed-line-rejected:"+c.Decoder+":formats", "line %q is accepted with default formats but rejected with facility=%s severity=%s: %v", ln.Text, ff, sf, err2)
+						ok = false
+					} else {
+						res[[2]string{ff, sf}] = fs{root2.Dig("facility").AsString(), root2.Dig("severity").AsString()}
+					}
+					insaneJSON.Release(root2)
+				}
+			}
+			if ok && !o.Failed() {
+				for _, x := range []string{"number", "string"} {
+					if a, b := res[[2]string{x, "number"}].fac, res[[2]string{x, "string"}].fac; a != b {
+						o.Failf(P, "syslog-format:facility-depends-on-severity-format:"+c.Decoder, "line %q, syslog_facility_format=%s: facility is %q with severity format number and %q with severity format string", ln.Text, x, a, b)
+					}
+					if a, b := res[[2]string{"number", x}].sev, res[[2]string{"string", x}].sev; a != b {
+						o.Failf(P, "syslog-format:severity-depends-on-facility-format:"+c.Decoder, "line %q, syslog_severity_format=%s: severity is %q with facility format number and %q with facility format string", ln.Text, x, a, b)
+					}
+				}
+				if nn := res[[2]string{"number", "number"}]; nn.fac != ln.Fields["facility"] || nn.sev != ln.Fields["severity"] {
+					o.Failf(P, "syslog-format:number-format-differs-from-default:"+c.Decoder, "line %q: formats number/number give facility %q severity %q, the default gives %q / %q", ln.Text, nn.fac, nn.sev, ln.Fields["facility"], ln.Fields["severity"])
+				}
+				if ss := res[[2]string{"string", "string"}]; ss.fac == ln.Fields["facility"] && ss.sev == ln.Fields["severity"] {
+					o.Failf(P, "syslog-format:string-format-has-no-effect:"+c.Decoder, "line %q: formats string/string still give the numbers %q / %q", ln.Text, ss.fac, ss.sev)
+				}
+				o.Class("syslog-formats-compared")
+			}
+			if o.Failed() {
+				break
+			}
 		}
 	}
 	if valid >= 2 || afterGarbage {
